@@ -12,6 +12,7 @@ pub fn run(kind: &str, i: &Input) -> String {
         "crypto_roundtrip" => crypto_roundtrip(i),
         "vm_pex" => vm_pex(i),
         "vm_eval" => vm_eval(i),
+        "check_multi" => check_multi(i),
         "vm_compute" => vm_compute(i),
         "types_convert" => types_convert(i),
         "hash_addrs" => hash_addrs(i),
@@ -649,7 +650,13 @@ fn types_convert(i: &Input) -> String {
 /// every child separately through the real Vm::exec from the documented initial state, applies the documented join and
 /// then lets the real VM continue from the joined state.
 fn vm_compute(i: &Input) -> String {
-    let ops = parse_ops(get(i, "ops"));
+    let shape = parse_ops(get(i, "ops"));
+    // optional prefix run by the parent before the Compute (e.g. `Push 2; Push 1; Repeat` opens a repeat scope whose counter
+    // the children must see); it replaces the never-executed op 0 of the shape
+    let prefix = parse_ops(get(i, "prefix"));
+    let k = prefix.len();
+    let ops: Vec<Op> = if k > 0 { prefix.iter().cloned().chain(shape[1..].iter().cloned()).collect() } else { shape };
+    let com = if k > 0 { k } else { 1 };
     let cost_v: u64 = get(i, "cost").parse().unwrap_or(1);
     let cost = move |_: &Op| cost_v;
     let limit = GasLimit { per_yield: GasLimit::DEFAULT_PER_YIELD, total: get(i, "limit").parse().unwrap_or(u64::MAX) };
@@ -658,25 +665,29 @@ fn vm_compute(i: &Input) -> String {
     let mk = |pc: usize, st: Vec<i64>, mem: Vec<i64>| { let mut vm = Vm::default(); vm.pc = pc;
         vm.stack = Stack::try_from(st).expect("REPLAY-HARNESS: stack"); vm.memory = Memory::try_from(mem).expect("REPLAY-HARNESS: memory"); vm };
     // real
-    let mut real = mk(1, stack0.clone(), mem0.clone());
+    let mut real = mk(if k > 0 { 0 } else { 1 }, stack0.clone(), mem0.clone());
     let r_real = real.exec_ops(&ops, test_access(), &NoState, &cost, limit);
     let real_s = match &r_real { Ok(g) => format!("ok gas={g} pc={} stack={} memory={}", real.pc, fmt_words(&real.stack), fmt_words(&real.memory)),
                                  Err(_) => "err".to_string() };
     // reference
     let reference = (|| -> Result<String, String> {
-        let mut st = stack0.clone();
+        let mut parent = mk(0, stack0.clone(), mem0.clone());
+        let mut gas = 0u64;
+        if k > 0 { gas = parent.exec_ops(&ops[..k], test_access(), &NoState, &cost, limit).map_err(|e| format!("prefix: {e}"))?; }
+        let repeat0 = parent.repeat.clone();
+        let mut st: Vec<i64> = parent.stack.to_vec();
         let breadth = st.pop().ok_or("no breadth")?;
         if breadth < 1 { return Err("breadth < 1".into()); }
-        let cost_com = cost_v;
-        if cost_com > limit.total { return Err("out of gas at Compute".into()); }
-        let mut gas = cost_com;
+        gas = gas.checked_add(cost_v).ok_or("gas overflow")?;
+        if gas > limit.total { return Err("out of gas at Compute".into()); }
         let mut mem = mem0.clone();
-        let mut pc = 1usize;
+        let mut pc = com;
         let mut halt = false;
-        for k in 0..breadth {
-            let mut c = mk(2, { let mut s = st.clone(); s.push(k); s }, vec![]);
+        for j in 0..breadth {
+            let mut c = mk(com + 1, { let mut s = st.clone(); s.push(j); s }, vec![]);
             c.parent_memory = vec![Arc::new(Memory::try_from(mem0.clone()).unwrap())];
-            let g = c.exec_ops(&ops, test_access(), &NoState, &cost, limit).map_err(|e| format!("child {k}: {e}"))?;
+            c.repeat = repeat0.clone();
+            let g = c.exec_ops(&ops, test_access(), &NoState, &cost, limit).map_err(|e| format!("child {j}: {e}"))?;
             gas = gas.checked_add(g).ok_or("gas overflow")?;
             mem.extend(Vec::<i64>::from(c.memory.clone()));
             pc = pc.max(c.pc);
@@ -685,6 +696,7 @@ fn vm_compute(i: &Input) -> String {
         if gas > limit.total { return Err("out of gas after join".into()); }
         if mem.len() > Memory::SIZE_LIMIT { return Err("memory limit".into()); }
         let mut vm = mk(pc, st, mem);
+        vm.repeat = repeat0;
         if !halt {
             // continue after the join with the remaining budget
             let rest = GasLimit { per_yield: limit.per_yield, total: limit.total - gas };
@@ -820,5 +832,32 @@ fn vm_eval(i: &Input) -> String {
     match vm.eval_ops(&ops, test_access(), &NoState, &|_: &Op| 1, GasLimit::UNLIMITED) {
         Ok(b) => format!("result=ok\nvalue={b}\n"),
         Err(e) => format!("result=err\nerr={}\n", format!("{e:?}").replace('\n', " ").chars().take(200).collect::<String>()),
+    }
+}
+
+/// n solutions, solution k solving its own one-leaf predicate with program `progK`, through the two-pass entry point:
+/// which solutions fail, and in which order they are reported
+fn check_multi(i: &Input) -> String {
+    use essential_check::solution::{check_and_compute_solution_set_two_pass, CheckPredicateConfig};
+    use essential_types::predicate::Program;
+    use essential_types::solution::SolutionSet;
+    use std::collections::HashMap;
+    let n: usize = get(i, "n").parse().unwrap();
+    let mut programs: HashMap<ContentAddress, Arc<Program>> = HashMap::new();
+    let mut preds: HashMap<PredicateAddress, Arc<Predicate>> = HashMap::new();
+    let mut sols = vec![];
+    for k in 0..n {
+        let prog = Program(essential_asm::to_bytes(parse_ops(get(i, &format!("prog{k}")))).collect());
+        let ca = essential_hash::content_addr(&prog);
+        programs.insert(ca.clone(), Arc::new(prog));
+        let pred = Predicate { nodes: vec![Node { edge_start: u16::MAX, program_address: ca }], edges: vec![] };
+        let paddr = PredicateAddress { contract: ContentAddress([k as u8 + 1; 32]), predicate: ContentAddress([k as u8 + 1; 32]) };
+        preds.insert(paddr.clone(), Arc::new(pred));
+        sols.push(Solution { predicate_to_solve: paddr, predicate_data: vec![], state_mutations: vec![] });
+    }
+    let cfg = Arc::new(CheckPredicateConfig { collect_all_failures: get(i, "collect_all") == "1" });
+    match check_and_compute_solution_set_two_pass(&MapState(Default::default()), SolutionSet { solutions: sols }, preds, programs, cfg) {
+        Ok((gas, _)) => format!("result=ok\ngas={gas}\n"),
+        Err(e) => format!("result=err\nerr={}\n", format!("{e:?}").replace('\n', " ").chars().take(600).collect::<String>()),
     }
 }
